@@ -512,7 +512,8 @@ func (C09) Explore(x *kernel.Explorer, seed uint64) {
 	r := kernel.NewRNG(seed, 0xc09)
 	for i := 0; i < 4 && !x.Expired(); i++ {
 		plan := &kernel.Plan{Prop: "C09", Seed: kernel.Mix(seed, uint64(i)), Swarm: map[string]int64{
-			"chunk": int64(r.Intn(4)), "env": int64(r.Intn(2)), "typed": int64(r.Intn(2)), "params": int64(r.Intn(2)), "mysql": int64(r.Intn(3) / 2), "depeof": int64(r.Intn(2)), "wyield": int64(r.Intn(2))}}
+			"chunk": int64(r.Intn(4)), "env": int64(r.Intn(2)), "typed": int64(r.Intn(2)), "params": int64(r.Intn(2)), "mysql": int64(r.Intn(3) / 2), "depeof": int64(r.Intn(2)), "wyield": int64(r.Intn(2)),
+			"join": int64(r.Intn(4) / 3)}}
 		n := 2 + r.Intn(7)
 		for j := 0; j < n; j++ {
 			plan.Ops = append(plan.Ops, kernel.Op{ID: j + 1, Kind: "row", A: []int64{int64(r.Intn(6))}})
@@ -536,6 +537,9 @@ func c09Index(v string) int {
 var c09Values = []string{"alpha-search-value", "alpha-search", "beta-search-value", "alpha-search-value2", "g", "delta value with spaces", "absent-value", "alpha", ""}
 
 func (C09) Run(t *testing.T, plan *kernel.Plan, keepLog bool) *kernel.Result {
+	if plan.Sw("join") == 1 {
+		return c09Join(t, plan, keepLog)
+	}
 	w := kernel.NewWorld(plan, keepLog)
 	Bubble(t, plan.Seed, func() {
 		start := time.Now()
